@@ -10,25 +10,33 @@
 (* caught); BlockInverted = a breaking variant.                                 *)
 EXTENDS TrafficFilterP
 
-CONSTANTS RaiseOnV6, RaiseOnUnicode, BlockInverted
+CONSTANTS RaiseOnV6, RaiseOnUnicode, BlockInverted,
+          CaseSensitive,       \* pinned commit: items and destination compared as typed (an upper-case item never matches)
+          StripOnValidate      \* breaking variant: items validated without their blanks but stored and compared with them
 
 Filter(s, Keep(_)) == LET F[i \in 0..Len(s)] == IF i = 0 THEN <<>> ELSE IF Keep(s[i]) THEN Append(F[i-1], s[i]) ELSE F[i-1]
                       IN F[Len(s)]
 
-Result(c, valid) ==
-    LET allow1 == Filter(c.allow, LAMBDA x : x \in valid)          \* _validate_allow removes unsupported values
-        blockUsed == IF allow1 # <<>> THEN <<>> ELSE c.block        \* "Found AllowList skipping the BlockList"
-        stateOk == \A i \in DOMAIN blockUsed : blockUsed[i] \in valid
+\* valid / tvalid: the raw items that pass _validate_host or _validate_ip as typed / without surrounding blanks
+Result(c, valid, tvalid) ==
+    LET ok(x) == x.raw \in (IF StripOnValidate THEN tvalid ELSE valid)
+        key(x) == IF CaseSensitive THEN x.raw ELSE x.low
+        hkey == IF CaseSensitive THEN c.host ELSE c.hlow
+        given(l) == Len(l) > 1 \/ (Len(l) = 1 /\ l[1].raw # "")
+        allow1 == Filter(c.allow, LAMBDA x : x.raw \in valid)         \* _validate_allow removes unsupported values
+        block0 == IF given(c.block) THEN c.block ELSE <<>>
+        blockUsed == IF allow1 # <<>> THEN <<>> ELSE block0          \* "Found AllowList skipping the BlockList"
+        stateOk == \A i \in DOMAIN blockUsed : ok(blockUsed[i])
         external ==
             CASE c.kind = "ip4" -> IF Internal4(c.ip) \/ c.ip = <<0, 0, 0, 0>> THEN "no" ELSE "yes"
               [] c.kind = "ip6" -> IF RaiseOnV6 THEN "raise" ELSE IF c.v6 = "global" THEN "yes" ELSE "no"
               [] OTHER -> CASE c.rsv = "ok" -> IF Internal4(c.ip) \/ c.ip = <<0, 0, 0, 0>> THEN "no" ELSE "yes"
                             [] c.rsv = "unicode" -> IF RaiseOnUnicode THEN "raise" ELSE "no"
                             [] OTHER -> "no"
-        inBlock == c.host \in SeqSet(blockUsed)
+        inBlock == hkey \in {key(blockUsed[k]) : k \in DOMAIN blockUsed}
     IN  IF ~stateOk THEN "no"
         ELSE IF c.header \notin {"absent", "empty"} THEN (IF c.header = "true" THEN "yes" ELSE "no")
-        ELSE IF c.allow # <<>> THEN (IF c.host \in SeqSet(allow1) THEN "yes" ELSE "no")
+        ELSE IF given(c.allow) THEN (IF hkey \in {key(allow1[k]) : k \in DOMAIN allow1} THEN "yes" ELSE "no")
         ELSE IF (IF BlockInverted THEN ~inBlock ELSE inBlock) /\ blockUsed # <<>> THEN "no"
         ELSE external
 ================================================================================
